@@ -370,6 +370,169 @@ func deployCases(r *rng.R, n int) []fw.Case {
 	return cs
 }
 
+// ---- offers that come late: the deployment attempts of DEPLOY ----------------------------------------------------------
+
+// offersStr: `(offers (h…) (h…) …)`, one list per offers round with the hosts whose offer is missing from it.
+func offersStr(rounds [][]string) string {
+	n := sx.L(sx.A("offers"))
+	for _, r := range rounds {
+		n.Add(sx.Strs(r))
+	}
+	return n.String()
+}
+
+// buildOffers: as build, with the `offers` element after the workflow.
+func buildOffers(calls int, tasks []genTask, rounds [][]string, steps [][]string) string {
+	n := sx.MustParse(build(calls, tasks, steps))
+	out := sx.L(n.At(0), sx.MustParse(offersStr(rounds)))
+	out.Add(n.List[1:]...)
+	return out.String()
+}
+
+const attemptLimit = 3 // MAX_ATTEMPTS_PER_DEPLOY_REQUEST, for the tags only
+
+// offerTags says, from the input alone, which class the case is in: which attempt decides and how.
+func offerTags(tasks []genTask, rounds [][]string, extra ...string) []string {
+	tags := append([]string{"offers"}, extra...)
+	missing := func(i int, t genTask) bool {
+		if t.launch == "nohost" {
+			return true
+		}
+		if i < len(rounds) {
+			for _, h := range rounds[i] {
+				if h == t.host {
+					return true
+				}
+			}
+		}
+		return false
+	}
+	for i := 0; i < attemptLimit; i++ {
+		crit, any := false, false
+		for _, t := range tasks {
+			if missing(i, t) {
+				any = true
+				crit = crit || t.crit
+			}
+		}
+		if crit {
+			continue
+		}
+		switch {
+		case any:
+			tags = append(tags, "offers:noncritical-missing", fmt.Sprintf("offers:decided-at=%d", i+1))
+		case i == 0:
+			tags = append(tags, "offers:first-attempt-complete")
+		default:
+			tags = append(tags, "offers:retry-succeeds", fmt.Sprintf("offers:decided-at=%d", i+1))
+		}
+		return tags
+	}
+	return append(tags, "offers:exhausted")
+}
+
+func offerCase(calls int, tasks []genTask, rounds [][]string, steps [][]string, extra ...string) fw.Case {
+	return fw.Case{Input: buildOffers(calls, tasks, rounds, steps), Tags: offerTags(tasks, rounds, extra...)}
+}
+
+// lateBy: the offers of h1 / h2 are missing from the first k1 / k2 rounds.
+func lateBy(k1, k2 int) [][]string {
+	var rounds [][]string
+	for i := 0; i < k1 || i < k2; i++ {
+		var r []string
+		if i < k1 {
+			r = append(r, "h1")
+		}
+		if i < k2 {
+			r = append(r, "h2")
+		}
+		rounds = append(rounds, r)
+	}
+	return rounds
+}
+
+// offerGrid: two tasks on two hosts x every critical mix x the offer of each host late by 0..3 rounds (3 = the attempt
+// limit: never within it), followed by CONFIGURE and START to see that the environment is whole.
+func offerGrid() []fw.Case {
+	var cs []fw.Case
+	for cm := 0; cm < 4; cm++ {
+		for k1 := 0; k1 <= attemptLimit; k1++ {
+			for k2 := 0; k2 <= attemptLimit; k2++ {
+				tasks := []genTask{{cm&1 == 1, modes[(cm+k1)%3], "h1", "ok"}, {cm&2 == 2, modes[(cm+k2)%3], "h2", "ok"}}
+				steps := [][]string{okStep("CONFIGURE", 2), okStep("START_ACTIVITY", 2)}
+				cs = append(cs, offerCase(0, tasks, lateBy(k1, k2), steps, "offers-grid"))
+			}
+		}
+	}
+	return cs
+}
+
+// offerFixed: shapes the grid does not have.
+func offerFixed() []fw.Case {
+	c := func(crit bool, mode, host, launch string) genTask { return genTask{crit, mode, host, launch} }
+	two := [][]string{okStep("CONFIGURE", 2), okStep("START_ACTIVITY", 2), okStep("STOP_ACTIVITY", 2)}
+	three := [][]string{okStep("CONFIGURE", 3), okStep("START_ACTIVITY", 3)}
+	return []fw.Case{
+		// the machines of two critical tasks are missing in turn: only the third round has both
+		offerCase(0, []genTask{c(true, "direct", "h1", "ok"), c(true, "basic", "h2", "ok")}, [][]string{{"h1"}, {"h2"}}, two, "offers-fixed"),
+		// …and in turn for ever: never both within the limit
+		offerCase(0, []genTask{c(true, "direct", "h1", "ok"), c(true, "basic", "h2", "ok")}, [][]string{{"h1"}, {"h2"}, {"h1"}, {}}, two, "offers-fixed"),
+		// a later round lacks the machine again: nobody asks any more, the first attempt was complete
+		offerCase(0, []genTask{c(true, "direct", "h1", "ok"), c(false, "basic", "h2", "ok")}, [][]string{{}, {"h1"}, {"h1"}}, two, "offers-fixed"),
+		// every machine missing for two rounds (only the spare host is offered)
+		offerCase(0, []genTask{c(true, "fairmq", "h1", "ok"), c(true, "direct", "h2", "ok")}, [][]string{{"h1", "h2"}, {"h1", "h2"}}, two, "offers-fixed"),
+		// three tasks on the late host, one elsewhere; a call role next to them
+		offerCase(1, []genTask{c(true, "direct", "h1", "ok"), c(false, "basic", "h1", "ok"), c(true, "direct", "h2", "ok")}, [][]string{{"h1"}}, three, "offers-fixed"),
+		// the critical task comes late and then dies at launch / never leaves staging
+		offerCase(0, []genTask{c(true, "direct", "h1", "dies"), c(false, "basic", "h2", "ok")}, [][]string{{"h1"}}, two[:1], "offers-fixed"),
+		offerCase(0, []genTask{c(true, "direct", "h1", "silent"), c(false, "basic", "h2", "ok")}, [][]string{{"h1"}, {"h1"}}, two[:1], "offers-fixed"),
+		// a non-critical role on a machine that no agent has, next to a critical task that comes late
+		offerCase(0, []genTask{c(true, "direct", "h1", "ok"), c(false, "basic", "h2", "nohost")}, [][]string{{"h1"}}, two[:1], "offers-fixed"),
+		// a critical role on a machine that no agent has: three attempts whatever is offered
+		offerCase(0, []genTask{c(true, "direct", "h1", "nohost"), c(false, "basic", "h2", "ok")}, nil, two[:1], "offers-fixed"),
+		// the non-critical task's machine comes one round after the critical task's: the loop does not wait for it
+		offerCase(0, []genTask{c(true, "direct", "h1", "ok"), c(false, "basic", "h2", "ok")}, [][]string{{"h1", "h2"}, {"h2"}}, two, "offers-fixed"),
+		// only non-critical tasks, one of them late
+		offerCase(0, []genTask{c(false, "direct", "h1", "ok"), c(false, "basic", "h2", "ok")}, [][]string{{"h2"}}, two, "offers-fixed"),
+		// late, and then a request fails in the usual way
+		offerCase(0, []genTask{c(true, "direct", "h1", "ok"), c(false, "basic", "h2", "ok")}, [][]string{{"h1"}, {"h1"}},
+			[][]string{okStep("CONFIGURE", 2), {"START_ACTIVITY", "stay", "ok"}}, "offers-fixed"),
+	}
+}
+
+// randomOffers: 1..4 tasks on two hosts, 0..4 rounds from each of which each host is missing with probability 2/5 (any
+// pattern, not only "late by k"), now and then a task that does not come up, then a short walk.
+func randomOffers(r *rng.R) fw.Case {
+	nt := r.Range(1, 4)
+	tasks := randTasks(r, nt)
+	if r.P(1, 6) {
+		tasks[r.N(nt)].launch = rng.Pick(r, []string{"dies", "silent", "nohost"})
+	}
+	var rounds [][]string
+	for i, n := 0, r.Range(0, 4); i < n; i++ {
+		rd := []string{}
+		for _, h := range hosts {
+			if r.P(2, 5) {
+				rd = append(rd, h)
+			}
+		}
+		rounds = append(rounds, rd)
+	}
+	conf := []string{"CONFIGURE"}
+	for range tasks {
+		o := "ok"
+		if r.P(1, 8) {
+			o = rng.Pick(r, fastOutcomes[1:])
+		}
+		conf = append(conf, o)
+	}
+	steps := [][]string{conf}
+	for _, ev := range [][]string{{"START_ACTIVITY"}, {"START_ACTIVITY", "STOP_ACTIVITY"}, {"RESET", "CONFIGURE"}}[r.N(3)] {
+		steps = append(steps, okStep(ev, nt))
+	}
+	return offerCase(r.N(2), tasks, rounds, steps, "offers-random")
+}
+
 // randomWalk: 1..4 tasks, a legal walk of up to maxSteps requests with fast outcomes and idle deaths of non-critical
 // tasks; it ends at the first step in which a critical task is scripted to fail (the environment leaves the graph).
 // When every task has died the walk goes on with commands that have no target (tag zero-target).
@@ -472,9 +635,9 @@ func repairedCases() []fw.Case {
 }
 
 func generate(tier string, r *rng.R) []fw.Case {
-	nSlow, nDeploy, nWalk, maxSteps, nLoss, nLossSlow := 13, 11, 120, 6, 30, 0
+	nSlow, nDeploy, nWalk, maxSteps, nLoss, nLossSlow, nOffers := 13, 11, 120, 6, 30, 0, 36
 	if tier == "thorough" {
-		nSlow, nDeploy, nWalk, maxSteps, nLoss, nLossSlow = 70, 40, 1500, 9, 300, 20
+		nSlow, nDeploy, nWalk, maxSteps, nLoss, nLossSlow, nOffers = 70, 40, 1500, 9, 300, 20, 400
 	}
 	var cs []fw.Case
 	// slow ones first: they mostly sleep, the workers overlap them with everything else. EVERY case that runs into one
@@ -488,6 +651,13 @@ func generate(tier string, r *rng.R) []fw.Case {
 		cs = append(cs, randomLoss(rl.Fork(), true))
 	}
 	cs = append(cs, deployCases(r.Fork(), nDeploy)...)
+	// offers that come late: at most the attempt limit's pauses (1 s each) plus, where DEPLOY cannot succeed, deploy_timeout
+	cs = append(cs, offerFixed()...)
+	cs = append(cs, offerGrid()...)
+	ro := r.Fork()
+	for i := 0; i < nOffers; i++ {
+		cs = append(cs, randomOffers(ro.Fork()))
+	}
 	cs = append(cs, repairedCases()...)
 	cs = append(cs, lossFast...)
 	cs = append(cs, lossGrid(tier == "thorough")...)
@@ -524,6 +694,9 @@ func nontrivial(in, obs string) bool {
 			return true
 		}
 	}
+	if sc.withholds() {
+		return true
+	}
 	for _, s := range sc.steps {
 		for _, x := range s.outs {
 			if x != "ok" && x != "-" {
@@ -534,15 +707,26 @@ func nontrivial(in, obs string) bool {
 	return false
 }
 
-// shrink: drop the last step; drop one task (its column in every step).
+// shrink: drop the last step; drop the last offers round; drop one task (its column in every step).
 func shrink(in string) []string {
 	n, err := sx.Parse(in)
 	if err != nil || n.Len() < 1 {
 		return nil
 	}
 	var out []string
-	if n.Len() > 2 {
+	first := 1 // index of the first step
+	var offers *sx.Node
+	if n.Len() > 1 && n.At(1).Len() >= 1 && !n.At(1).At(0).IsList && n.At(1).At(0).Str() == "offers" {
+		offers = n.At(1)
+		first = 2
+	}
+	if n.Len() > first+1 {
 		c := sx.L(n.List[:n.Len()-1]...)
+		out = append(out, c.String())
+	}
+	if offers != nil && offers.Len() > 1 {
+		c := sx.L(n.At(0), sx.L(offers.List[:offers.Len()-1]...))
+		c.Add(n.List[2:]...)
 		out = append(out, c.String())
 	}
 	wf := n.At(0)
@@ -555,7 +739,10 @@ func shrink(in string) []string {
 			}
 		}
 		c := sx.L(w2)
-		for s := 1; s < n.Len(); s++ {
+		if offers != nil {
+			c.Add(offers)
+		}
+		for s := first; s < n.Len(); s++ {
 			st := n.At(s)
 			s2 := sx.L(st.At(0))
 			for i := 0; i < nt; i++ {
@@ -591,7 +778,8 @@ func init() {
 			"(e) 8 fixed cases in the four repaired corners (commands with no target incl. CONFIGURE and a call-roles-only workflow, a lone non-critical task failing at every position, failed requests); " +
 			"(f) executor / agent loss while a command is outstanding (Mesos FAILURE event injected after the victim's reply has left / before it leaves, with / without the terminal status updates, the other targets answering only after the core has handled the loss): " +
 			"a grid of 2 tasks on 2 hosts x every critical mix x the victim's reply in {ok, error staying, error to ERROR} x START/STOP/RESET/CONFIGURE (48 cells; thorough: x executor/agent x with/without update = 192), 9 fixed shapes (neighbours on the lost executor, several tasks lost, a reply that never leaves, a silent victim that keeps the command outstanding by itself), 30 (thorough: 320) random ones over 2..4 tasks. " +
-			"non-trivial = at least one task and (two answered requests or a scripted failure); distinct by input text",
+			"(g) offers that come late (the simulated master leaves the offer of a host out of scripted offers rounds after DEPLOY revived offers; one round per deployment attempt of Manager.acquireTasks; a third agent without tasks is always offered): a grid of 2 tasks on 2 hosts x every critical mix x each host late by 0..3 rounds (3 = the attempt limit) = 64 cells, 12 fixed shapes (machines missing in turn, a later round incomplete again, several tasks on the late host, late and then dying / staying in staging, machines that no agent has, a request failing after a late deployment), 36 (thorough: 400) random ones over 1..4 tasks with ANY pattern of missing offers over 0..4 rounds; the observation of NewEnvironment carries the tasks launched per attempt (REVIVE / ACCEPT calls seen by the master) and, when it failed with acquireTasks still waiting for a verdict, the proof of that (goroutine dump). " +
+			"non-trivial = at least one task and (two answered requests or a scripted failure or a missing offer); distinct by input text",
 		Shrink:  shrink,
 		Workers: Workers,
 		TrustedBase: []string{
@@ -604,6 +792,7 @@ func init() {
 			"simulated executors stand in for o2-aliecs-executor (+ OCC/FairMQ tasks): they answer with the repository's own response types; fairmq-mode tasks are treated like direct ones",
 			"after a failed MESSAGE call (undeliverable) replies of the other targets may or may not arrive (the scheduler client drops its subscription): the driver accepts either, each being an instance of the model with those targets silent",
 			"who gets the transition mutex first after a failed slow transition (the environment's watcher or the RPC handler) decides the gRPC status: the driver accepts either where the model allows both",
+			"offers that come late: the simulated master answers each REVIVE with one OFFERS event from which the scripted hosts are missing (checked against the trace in every such case; a mismatch is inconclusive); the core revives offers exactly once per deployment attempt and nowhere else, so the REVIVE calls delimit the attempts and the ACCEPT calls between them give the tasks launched; every role of the scenarios is bound to one machine (machine_id constraint) and the agents have room for every task, so a round either launches everything or — a machine missing — nothing",
 			"executor / agent loss: the simulated master emits the FAILURE event (optionally preceded by the terminal status updates of the tasks hit) once the replies of the tasks hit have left it; the reactions of the other targets are held until the core reports every task hit as unlocked and not ACTIVE, and the case is inconclusive unless the request is still unanswered then; the core runs one executor per agent, so a loss hits every live task on the host (checked against the master's task table in every such case, and the set of tasks hit is part of the compared observation); when a critical task that had acknowledged is lost, the state in the reply of the (successful) request is the destination or already ERROR depending on whether the environment's watcher got the transition mutex before the handler read the state: the driver accepts either, and the harness waits for the environment to show ERROR before it reads the state afterwards",
 		},
 	})
